@@ -83,6 +83,7 @@ func GenerateDefinition(modelNames []string, opts *GenOpts) error {
 		for k := range specDoc.Spec().Definitions {
 			modelNames = append(modelNames, k)
 		}
+		sort.Strings(modelNames)
 	}
 
 	for _, modelName := range modelNames {
